@@ -203,6 +203,7 @@ type TMisc struct {
 }
 
 var zoo [3][]*simType
+var zooProtoScalars []*simType
 
 func zt(c gen.Codec, v any, name string) *simType {
 	rt := reflect.TypeOf(v)
@@ -258,6 +259,13 @@ func init() {
 	zoo[gen.Proto] = []*simType{
 		zt(gen.Proto, PNode{}, "PNode"), zt(gen.Proto, PWithMsgs{}, "PWithMsgs"), zt(gen.Proto, PInlined{}, "PInlined"), zt(gen.Proto, PMaps{}, "PMaps"), zt(gen.Proto, PInner{}, "PInner"), zt(gen.Proto, PMsg{}, "PMsg"), zt(gen.Proto, PCustom{}, "PCustom"),
 	}
+	// top-level proto values that are not messages: used by C16 only (under the
+	// race detector's checkptr instrumentation the library's handling of
+	// by-value scalars is a fatal error, which is outside every claimed property)
+	zooProtoScalars = []*simType{
+		zt(gen.Proto, [8]byte{}, "[8]byte"), zt(gen.Proto, [21]byte{}, "[21]byte"), zt(gen.Proto, "", "string"), zt(gen.Proto, []byte(nil), "[]byte"),
+		zt(gen.Proto, int64(0), "int64"), zt(gen.Proto, int32(0), "int32"), zt(gen.Proto, uint64(0), "uint64"), zt(gen.Proto, float64(0), "float64"), zt(gen.Proto, float32(0), "float32"), zt(gen.Proto, false, "bool"),
+	}
 	zoo[gen.Thrift] = []*simType{
 		zt(gen.Thrift, TNode{}, "TNode"), zt(gen.Thrift, TMisc{}, "TMisc"), zt(gen.Thrift, TInner{}, "TInner"),
 	}
@@ -304,6 +312,11 @@ func typeFlags(rt reflect.Type) string {
 func protoArg(v reflect.Value) any {
 	t := v.Elem().Type()
 	if t == reflect.TypeOf(PMsg{}) || t == reflect.TypeOf(PCustom{}) {
+		return v.Elem().Interface()
+	}
+	if t.Kind() != reflect.Struct && !(t.Kind() == reflect.Array && t.Len() > 8) {
+		// top-level scalars, strings, byte slices and the small array go in by
+		// value; the larger array by pointer
 		return v.Elem().Interface()
 	}
 	return v.Interface()
